@@ -353,6 +353,187 @@ def rule_r5(facts, col):
                 col.bad("C07.R5", "%s.%s:pub" % (TOKEN_ADT, fld["name"]), "", "the flag field is public: anyone can reset it", {})
 
 
+def _slot_state_search(body, slot, starts):
+    """explicit-state search over (block, state of the Option local `slot` in {'N','S','?'}) - returns {block: set(states at its
+    terminator)}.  Refines on `Option::is_none/is_some(&slot)` results and on discr(slot) switches; `slot = Some(..)`,
+    get_or_insert/insert/replace/or with &mut slot -> S; `slot = None` / take() -> N; any other &mut borrow -> ?"""
+    borrows = {}    # local holding &slot / &mut slot -> mut?
+    for bb in body.reachable(0):
+        for st in body.blocks[bb]["stmts"]:
+            if st["k"] == "assign" and st["rv"]["k"] == "ref" and st["rv"]["p"]["l"] == slot and not st["rv"]["p"]["p"] and not st["dst"]["p"]:
+                borrows[st["dst"]["l"]] = bool(st["rv"].get("mut"))
+    aliases = {slot}
+    for bb in body.reachable(0):
+        for st in body.blocks[bb]["stmts"]:
+            if st["k"] == "assign" and st["rv"]["k"] == "use" and not st["dst"]["p"]:
+                q = st["rv"]["a"].get("c") or st["rv"]["a"].get("m")
+                if q is not None and not q["p"] and q["l"] == slot and len(body.defs().get(st["dst"]["l"], [])) == 1:
+                    aliases.add(st["dst"]["l"])
+    seen = set()
+    at_term = {}
+    stack = list(starts)
+    while stack:
+        bb, stt = stack.pop()
+        if (bb, stt) in seen or len(seen) > 20000:
+            continue
+        seen.add((bb, stt))
+        cur = stt
+        for st in body.blocks[bb]["stmts"]:
+            if st["k"] != "assign":
+                continue
+            d = st["dst"]
+            if d["l"] == slot and not d["p"]:
+                rv = st["rv"]
+                if rv["k"] == "use":
+                    q = rv["a"].get("c") or rv["a"].get("m")
+                    if q is not None and not q["p"]:
+                        d2 = body.defs().get(q["l"], [])
+                        if len(d2) == 1 and d2[0][2] == "rv":
+                            rv = d2[0][3]
+                if rv["k"] == "agg" and rv.get("adt") == "std::option::Option":
+                    cur = "S" if rv.get("variant") == "Some" else "N"
+                else:
+                    cur = "?"
+        t = body.term(bb)
+        at_term.setdefault(bb, set()).add(cur)
+        nxt = [(x, cur) for x in body.succ[bb]]
+        if t["k"] == "call":
+            name = t["f"].get("name")
+            argl = [((a.get("c") or a.get("m")) or {}).get("l") for a in t["args"]]
+            hit = [l for l in argl if l in borrows]
+            if hit:
+                mut = any(borrows[l] for l in hit)
+                if name in ("get_or_insert", "get_or_insert_with", "insert", "replace") and mut:
+                    cur = "S"
+                elif name == "take" and mut:
+                    cur = "N"
+                elif name in ("is_none", "is_some", "as_ref", "as_deref"):
+                    pass
+                elif mut:
+                    cur = "?"
+            if not t["dst"]["p"] and t["dst"]["l"] == slot:
+                cur = "?"
+                if name in ("or", "or_else") and len(t["args"]) >= 2:
+                    # `slot = slot.or(Some(e))`: Some whatever the slot held
+                    q = t["args"][1].get("c") or t["args"][1].get("m")
+                    if q is not None and not q["p"]:
+                        d2 = body.defs().get(q["l"], [])
+                        if len(d2) == 1 and d2[0][2] == "rv" and d2[0][3]["k"] == "agg" and d2[0][3].get("variant") == "Some":
+                            cur = "S"
+            nxt = [(x, cur) for x in body.succ[bb]]
+            at_term[bb].add(cur)
+            if name in ("is_none", "is_some") and hit and t.get("t") is not None:
+                # result local -> refine at the switch that tests it
+                res = t["dst"]["l"]
+                tb = t["t"]
+                tt = body.term(tb)
+                if tt["k"] == "switch" and tt.get("dty") == "bool" and ((tt["d"].get("c") or tt["d"].get("m")) or {}).get("l") == res:
+                    bt = bool_edge_targets(body, tb)
+                    if bt:
+                        yes, no = ("N", "S") if name == "is_none" else ("S", "N")
+                        nxt = []
+                        if cur in (yes, "?"):
+                            nxt.append((bt[0], yes))
+                        if cur in (no, "?"):
+                            nxt.append((bt[1], no))
+                        seen.add((tb, cur))
+                        at_term.setdefault(tb, set()).add(cur)
+        elif t["k"] == "switch":
+            # raw MIR: `_d = discriminant(slot); switchInt(_d)` (the origin expression would show the slot's first value only)
+            dl = ((t["d"].get("c") or t["d"].get("m")) or {}).get("l")
+            on_slot = False
+            for dbb, si, kind, payload in body.defs().get(dl, []) if dl is not None else []:
+                if kind == "rv" and payload["k"] == "discr" and not payload["p"]["p"] and payload["p"]["l"] in aliases:
+                    on_slot = True
+            if on_slot:
+                if True:
+                    nxt = []
+                    for tgt, v in switch_edges(body, bb):
+                        if v == 0 or (v is None and False):
+                            if cur in ("N", "?"):
+                                nxt.append((tgt, "N"))
+                        elif v == 1:
+                            if cur in ("S", "?"):
+                                nxt.append((tgt, "S"))
+                        else:
+                            # otherwise edge: whatever is not listed
+                            listed = {vv for _, vv in switch_edges(body, bb) if vv is not None}
+                            rest = [z for z in ("N", "S") if {"N": 0, "S": 1}[z] not in listed]
+                            for z in rest:
+                                if cur in (z, "?"):
+                                    nxt.append((tgt, z))
+        stack.extend(nxt)
+    return at_term
+
+
+def rule_r6(facts, col, bodies=None):
+    """errors of joined block threads are kept: on the Err arm of a joined result the error either is returned at once or
+    ends up in an Option slot that is Some when the arm is left (whatever the slot held before), and once the slot is Some the
+    code after the loop returns it"""
+    for body in (bodies if bodies is not None else runner_bodies(facts)):
+        wsites = {ws.wbb for ws in work_sites(facts, body)}
+        for bb, t, l in error_sources(body):
+            if bb in wsites:
+                continue
+            key = "%s:%s:kept" % (body.q, (t["f"].get("q") or "?").split("::")[-1])
+            # the Err arm of this result
+            err_t = None
+            sw = None
+            for s_ in sorted(body.reachable(0)):
+                tt = body.term(s_)
+                if tt["k"] != "switch":
+                    continue
+                e = switch_discr_expr(body, s_)
+                if e.k == "discr":
+                    x = peel(e.a, through_try=False)
+                    if x is not None and x.k == "call" and x.bb == bb:
+                        sw, err_t = s_, variant_target(body, s_, 1, 2)
+            if err_t is None:
+                col.silent("C07.R6", key, body.where(bb), "result not matched directly")
+                continue
+            tainted = _tainted_locals(body, l)
+            slots = [x for x in tainted if x != l and body.locals[x]["ty"].startswith("std::option::Option<") and "Error" in body.locals[x]["adts"]
+                     and len(body.defs().get(x, [])) >= 1]
+            if not slots:
+                col.ok("C07.R6", key, body.where(bb), "no Option<Error> slot: the error is returned directly (judged by C07.R2)")
+                continue
+            slot = slots[0]
+            comp = scc_of(body, bb)
+            if comp is None:
+                col.silent("C07.R6", key, body.where(bb), "join not in a loop")
+                continue
+            at = _slot_state_search(body, slot, [(err_t, "N"), (err_t, "S")])
+            # blocks where the arm is left: back at the loop's iterator / result site or outside the loop
+            nexts = set(finite_next_blocks(body)) & comp
+            leave = set()
+            for b2 in at:
+                if b2 not in comp:
+                    continue
+                for s2 in body.succ[b2]:
+                    if s2 in nexts or s2 == bb or (s2 not in comp and body.term(s2)["k"] != "unreachable"):
+                        leave.add(b2)
+            bad = [b2 for b2 in leave if at[b2] - {"S"}]
+            if bad:
+                col.bad("C07.R6", key, body.where(bad[0]),
+                        "a joined thread's Err can leave its match arm with the error slot still empty (or in an unknown state): that "
+                        "failure is dropped and run() reports success although a block failed", {})
+                continue
+            # after the loop: slot == Some leads to a return carrying the error
+            exits = [v for u in comp for v in body.succ[u] if v not in comp and body.term(v)["k"] != "unreachable"]
+            at2 = _slot_state_search(body, slot, [(x, "S") for x in exits])
+            okret = True
+            for b2 in at2:
+                if body.term(b2)["k"] == "return":
+                    # last definition of _0 on the way must be error-derived: approximate with the block-local one
+                    vals = [e for rb, si, e in assigns_to_return(body) if rb in at2]
+                    if not any(e.k == "agg" and e.variant == "Err" for e in vals) or any(e.k == "agg" and e.variant == "Ok" for e in vals):
+                        okret = False
+            if okret:
+                col.ok("C07.R6", key, body.where(bb), "error kept in slot _%d on every way out of the arm; a filled slot is returned" % slot)
+            else:
+                col.bad("C07.R6", key, body.where(bb), "with the error slot filled the code after the join loop can still return Ok", {})
+
+
 def run(ctx):
     facts = ctx.facts("default")
     rb = runner_bodies(facts)
@@ -362,6 +543,8 @@ def run(ctx):
     rule_r2(facts, ctx, rb)
     rule_r3(facts, ctx, rb)
     rule_r4(facts, ctx, rb)
+    rule_r6(facts, ctx, rb)
+    ctx.floor("C07.R6", 1, "joined results of MTGraph::run")
     rule_r5(facts, ctx)
     ctx.floor("C07.R5", 1, "CancellationToken::cancel stores true")
     from .. import controls
